@@ -14,7 +14,8 @@ DESIGN_REF = '5/C07'
 TECHNIQUE = ('bounded exhaustive enumeration of inputs (all 1- and 2-bin datasets over a value/error alphabet, all bin-class assignments '
              'for 3-4 bins in 1-d and 2-d shapes, all ordered tuples of representative compared datasets) of the real TestChi2 '
              'against a scalar reference (sum over used bins, ndf, regularised incomplete gamma), incl. every bin permutation')
-RULE = ('(A) every pair of 1-bin and 2-bin datasets over values {-2, 0, 1, 1.3, 4} x errors {0, 0.1, 1} (all zero-error patterns), both '
+RULE = ('[also: count histograms as int32 / int64 value arrays (0 ... 4e9) with float errors] ' +
+        '(A) every pair of 1-bin and 2-bin datasets over values {-2, 0, 1, 1.3, 4} x errors {0, 0.1, 1} (all zero-error patterns), both '
         'settings of ignore_empty, alpha in {0.01, 0.05, 0.5}; 1-bin datasets also with NaN / inf values and errors when the option is '
         'off; small magnitudes: values {0, 1e-10, 1.1e-10, 5e-9} x errors {0, 1e-12, 1e-9, 0.1} as 1-bin datasets and paired with 5 class '
         'bins (an error of 1e-12 is not an empty bin); (B) every assignment of 6 bin classes (small / large contribution, one zero error, both zero & equal, both zero & '
